@@ -105,7 +105,19 @@ AliasCheck ==
                 THEN Say("same-list-not-reported-as-aliased", a \o "," \o b) ELSE TRUE
     ELSE TRUE
 
-FactStep == UseCheck /\ AssignFacts /\ AliasCheck /\ DefUpd
+\* --- facts about the parameters (program field pfacts: <<[n, ty, sz, vc]>>), checked on the first step of a run
+ParamFacts ==
+    IF status = "run" /\ steps = 0 /\ Len(frames) = 1 /\ "pfacts" \in DOMAIN P
+    THEN \A i \in 1..Len(P.pfacts) :
+            LET f == P.pfacts[i]
+                v == frames[1].env[f.n]
+            IN  /\ IF ShapeOK(v, store, f.ty) THEN TRUE ELSE Say("value-does-not-have-the-inferred-type", f.n)
+                /\ IF SizeOK(v, store, f.sz) THEN TRUE ELSE Say("list-does-not-have-the-inferred-length", f.n)
+                /\ IF IsNum(v) /\ "top" \notin SeqSet(f.vc) /\ ClassOf(v) \notin SeqSet(f.vc)
+                   THEN Say("value-outside-the-reported-classes", f.n) ELSE TRUE
+    ELSE TRUE
+
+FactStep == UseCheck /\ AssignFacts /\ ParamFacts /\ AliasCheck /\ DefUpd
 FNext == Next /\ FactStep
 FSpec == FInit /\ [][FNext]_fvars
 =============================================================================
